@@ -5,6 +5,7 @@ package main
 
 import (
 	"fmt"
+	"os"
 	"sort"
 	"strings"
 )
@@ -347,6 +348,12 @@ func (i *interpreter) freshSym(base string, w int) *Term {
 
 func (i *interpreter) reportViolation(kind, msg string, model map[string]uint64) {
 	i.st.violations++
+	if os.Getenv("VX_DEBUG") == "4" {
+		fmt.Fprintf(os.Stderr, "VIOLATION %s %s\n", kind, msg)
+		for _, t := range i.sch.threads {
+			fmt.Fprintf(os.Stderr, "  thread %d %s state=%d what=%s\n", t.id, t.name, t.state, t.what)
+		}
+	}
 	if model == nil {
 		// need a model of the current path condition
 		if i.path.model != nil {
